@@ -60,9 +60,12 @@ def benign():
         summ = (am.get("summary") or "").replace("\n", " ").replace("|", "/")
         if len(summ) > 260:
             summ = summ[:257] + "..."
-        rows.append("| `%s` | %s | %s | %d | %s | %s |" % (name, summ, r.get("diffstat", ""), len(r["checks"]),
-                                                          ", ".join(r["alarms"]) or "none", ", ".join(r["infra_failures"]) or "none"))
-    return ("| change | what was restructured | size | checks run | alarms | infrastructure failures |\n|---|---|---|---|---|---|\n" + "\n".join(rows) + "\n")
+        alarms = [c for c, x in r["checks"].items() if x["exit"] == 1 or x["violations"]]
+        infra = [c for c, x in r["checks"].items() if x["exit"] not in (0, 1)]
+        drift = ["%s: %d" % (c, x["model_drift"]) for c, x in sorted(r["checks"].items()) if x.get("model_drift")]
+        rows.append("| `%s` | %s | %s | %d | %s | %s | %s |" % (name, summ, r.get("diffstat", ""), len(r["checks"]),
+                                                             ", ".join(alarms) or "none", ", ".join(infra) or "none", ", ".join(drift) or "-"))
+    return ("| change | what was changed | size | checks run | alarms | infrastructure failures | MODEL-DRIFT diagnostics |\n|---|---|---|---|---|---|---|\n" + "\n".join(rows) + "\n")
 
 
 p = "/verif/DESIGN.md"
